@@ -201,7 +201,7 @@ class State:
             self.check_isolation()
 
     def op_init(self, op):
-        spec = {"nodes": op["nodes"], "name": "root"}
+        spec = {"nodes": op["nodes"], "name": None if op.get("anon") else "root"}  # unnamed graphs are legal (as_node then needs a name)
         g = make_graph(self.ctx, spec, "sync")
         self.add("graph", g, None, "init", rebuild=lambda ps, ctx: make_graph(ctx, spec, "sync"), parents=[])
         for k, n in enumerate(list(g.nodes.values())[:4]):
@@ -458,9 +458,9 @@ def machine(tier, ev, holder, guarded):
             holder["case"] = self.s.trace
             guarded(self.s.trace, fn=lambda: self.s.apply(op))
 
-        @initialize(nodes=st.one_of(gen.g1_nodes(2, 5).flatmap(gen.permuted), gen.g2_nodes(max_nodes=4, p_fail=0.0).map(lambda t: t[0])))
-        def init(self, nodes):
-            self._do({"op": "init", "nodes": nodes})
+        @initialize(nodes=st.one_of(gen.g1_nodes(2, 5).flatmap(gen.permuted), gen.g2_nodes(max_nodes=4, p_fail=0.0).map(lambda t: t[0])), anon=st.booleans())
+        def init(self, nodes, anon):
+            self._do({"op": "init", "nodes": nodes, "anon": anon})
 
         @rule(g=_idx, names=_names, tag=st.integers(0, 3))
         def bind(self, g, names, tag):
